@@ -7,7 +7,7 @@
    them and is evaluated by the contract monitor on every case of every run. *)
 From Coq.Strings Require Import Byte.
 From EsVerif.Common Require Import Base Bytes.
-From EsVerif.C04 Require Import Gen TextModel Spec DecProofs ScanProofs WriteProofs RoundTrip CheckProofs FmtModel FmtProofs Exec ExecProofs.
+From EsVerif.C04 Require Import Gen TextModel Spec DecProofs ScanProofs WriteProofs RoundTrip CheckProofs FmtModel FmtProofs AccProofs Exec ExecProofs.
 
 (* ---- integers: printf %d / scanf %d and the memory image are inverse to each other *)
 Theorem C04_dec_parse_roundtrip : forall z, parse_dec (dec z) = z.
@@ -82,6 +82,22 @@ Proof. exact fcontract_of_acc. Qed.
 
 (* the contract is not vacuous for the modelled printf/strtod: binary64 1/3, -0, nan, inf, the least subnormal,
    1e22, 123456, 0.0001, binary32 0.1f and FLT_MAX print as glibc prints them and come back within the stated digits *)
+(* ---- the accuracy part as a theorem on finite sub-domains (decided by the kernel): every integer |z| <= 2000 held in
+   a binary32 or binary64 column -- this contains the only text data of esutil's own test-suite -- is printed as a
+   well-formed token and read back EXACTLY; powers of two and ten meet the contract *)
+Theorem C04_accuracy_small_integers : forall sz z, sz = 4%nat \/ sz = 8%nat -> -2000 <= z <= 2000 ->
+  fcell_ok_b F_model P_model sz (int_img sz z) = true
+  /\ P_model sz (F_model sz (int_img sz z)) = int_img sz z
+  /\ is_int_val (int_img sz z) z = true.
+Proof. exact accuracy_small_integers. Qed.
+
+Theorem C04_accuracy_powers : forall k,
+  (-128 <= k <= 128 -> fcell_ok_b F_model P_model 8 (pow_img 2 8 k) = true)
+  /\ (-149 <= k <= 127 -> fcell_ok_b F_model P_model 4 (pow_img 2 4 k) = true)
+  /\ (-40 <= k <= 40 -> fcell_ok_b F_model P_model 8 (pow_img 10 8 k) = true)
+  /\ (-37 <= k <= 38 -> fcell_ok_b F_model P_model 4 (pow_img 10 4 k) = true).
+Proof. exact accuracy_powers. Qed.
+
 Example C04_fmt_model_examples :
   F16 8 [x55; x55; x55; x55; x55; x55; xd5; x3f] = [x30; x2e; x33; x33; x33; x33; x33; x33; x33; x33; x33; x33; x33; x33; x33; x33; x33; x33]
   /\ F16 8 [x00; x00; x00; x00; x00; x00; x00; x80] = [x2d; x30]
